@@ -8,7 +8,7 @@ import (
 	"golang.org/x/crypto/ssh"
 )
 
-// Sessions between the independent non-strict Peer (npeer.go) and one real
+// Sessions between the independent Peer (npeer.go; non-strict unless asked otherwise) and one real
 // x/crypto/ssh endpoint, through a passive mitm that only captures.
 //
 // Both roles run the same story: first key exchange, authentication "none",
@@ -33,6 +33,7 @@ type peerRun struct {
 	dump      string
 	injectedN int // index of the regular packet before which the injection was made (-1: none)
 	injTyp    byte
+	strict    bool // the Peer offers strict KEX
 	abandoned bool // a party stayed blocked after all connections were closed
 }
 
@@ -54,11 +55,11 @@ func checkOut(cmd string, out []byte, status uint32) error {
 func peerHandler(cmd string) ([]byte, uint32) { return outputFor(cmd), 0 }
 
 // runPeer runs one session. role selects which side the Peer plays.
-func runPeer(role, kex string, su suite, inj injection) *peerRun {
-	pr := &peerRun{role: role, tap: newTapRec(), injectedN: -1}
+func runPeer(role, kex string, su suite, strict bool, inj injection) *peerRun {
+	pr := &peerRun{role: role, strict: strict, tap: newTapRec(), injectedN: -1}
 	pE, mP := newDuplex("peer", "mitm-p")
 	mG, gE := newDuplex("mitm-g", "go")
-	pcfg := PeerConfig{Kex: []string{kex}, Ciphers: []string{su.Cipher}, NoStrict: true}
+	pcfg := PeerConfig{Kex: []string{kex}, Ciphers: []string{su.Cipher}, NoStrict: !strict}
 	if su.MAC != "" {
 		pcfg.MACs = []string{su.MAC}
 	}
